@@ -386,6 +386,7 @@ impl Drv for DBatchSort {
         self.t.predict(req);
         let mut out = vec![];
         for _ in 0..res.batch_size() {
+            wait_ready(&res);
             let (s, tracks) = res.get();
             out.push((s, tracks.iter().map(rec).collect()));
         }
@@ -481,6 +482,7 @@ impl Drv for DBatchVisual {
         self.t.predict(req);
         let mut out = vec![];
         for _ in 0..res.batch_size() {
+            wait_ready(&res);
             let (s, tracks) = res.get();
             out.push((s, tracks.iter().map(rec).collect()));
         }
@@ -524,4 +526,26 @@ fn add_order(b: &[(u64, Vec<Det>)]) -> Vec<(u64, &Det)> {
         }
     }
     out
+}
+
+/// number of batch requests whose results did not arrive (a replay gives up on batch trackers after three of them)
+pub static HANGS: std::sync::atomic::AtomicUsize = std::sync::atomic::AtomicUsize::new(0);
+
+/// Watchdog of the batch drivers: a result that does not arrive within 10 s is a hang (the caller panics with a text that
+/// starts with "hang:"; the tracker is then leaked instead of dropped - its destructor would wait for the stuck threads).
+fn wait_ready(res: &similari::trackers::batch::PredictionBatchResult) {
+    let t0 = std::time::Instant::now();
+    let mut spins = 0u32;
+    while !res.ready() {
+        spins += 1;
+        if spins < 2000 {
+            std::thread::yield_now();
+        } else {
+            std::thread::sleep(std::time::Duration::from_micros(100));
+            if t0.elapsed() > std::time::Duration::from_secs(10) {
+                HANGS.fetch_add(1, std::sync::atomic::Ordering::SeqCst);
+                panic!("hang: no result for a scene of the batch within 10 s");
+            }
+        }
+    }
 }
